@@ -17,6 +17,7 @@ import (
 	"go/token"
 	"go/types"
 	"os"
+	"path/filepath"
 	"regexp"
 	"sort"
 	"strings"
@@ -201,7 +202,105 @@ func LoadKnown(path string) (map[string]bool, error) {
 		ParamNames[k] = names
 		Signatures[k] = sig
 	}
+	// the local closures of the reference tree ("<function key>$<variable>"): they are left alone
+	if b, err := os.ReadFile(filepath.Join(filepath.Dir(path), "known_closures.txt")); err == nil {
+		for _, l := range strings.Split(string(b), "\n") {
+			if l = strings.TrimSpace(l); l != "" {
+				out[l] = true
+			}
+		}
+	}
 	return out, sc.Err()
+}
+
+// closureDefs finds the local closures of a function: "x := func(..) {..}" with x used only in call position (and in
+// "_ = x"), never reassigned, and not referring to itself.
+func closureDefs(info *types.Info, fd *ast.FuncDecl) map[*types.Var]*ast.AssignStmt {
+	out := map[*types.Var]*ast.AssignStmt{}
+	ast.Inspect(fd.Body, func(x ast.Node) bool {
+		as, ok := x.(*ast.AssignStmt)
+		if !ok || as.Tok != token.DEFINE || len(as.Lhs) != 1 || len(as.Rhs) != 1 {
+			return true
+		}
+		id, ok := as.Lhs[0].(*ast.Ident)
+		if !ok {
+			return true
+		}
+		if _, isLit := as.Rhs[0].(*ast.FuncLit); !isLit {
+			return true
+		}
+		if v, ok := info.Defs[id].(*types.Var); ok {
+			out[v] = as
+		}
+		return true
+	})
+	if len(out) == 0 {
+		return out
+	}
+	// uses: only as the function of a call, or in "_ = x"
+	okUse := map[*ast.Ident]bool{}
+	ast.Inspect(fd.Body, func(x ast.Node) bool {
+		switch y := x.(type) {
+		case *ast.CallExpr:
+			if id, ok := ast.Unparen(y.Fun).(*ast.Ident); ok {
+				okUse[id] = true
+			}
+		case *ast.AssignStmt:
+			if y.Tok == token.ASSIGN && len(y.Lhs) == 1 && len(y.Rhs) == 1 {
+				if l, ok := y.Lhs[0].(*ast.Ident); ok && l.Name == "_" {
+					if id, ok := y.Rhs[0].(*ast.Ident); ok {
+						okUse[id] = true
+					}
+				}
+			}
+		}
+		return true
+	})
+	ast.Inspect(fd.Body, func(x ast.Node) bool {
+		id, ok := x.(*ast.Ident)
+		if !ok {
+			return true
+		}
+		v, ok := info.Uses[id].(*types.Var)
+		if !ok {
+			return true
+		}
+		if as, isC := out[v]; isC {
+			lit := as.Rhs[0].(*ast.FuncLit)
+			if !okUse[id] || (id.Pos() >= lit.Pos() && id.Pos() < lit.End()) {
+				delete(out, v)
+			}
+		}
+		return true
+	})
+	return out
+}
+
+// DeclaredClosures lists the local closures of the packages ("<function key>$<variable>").
+func DeclaredClosures(pkgs []*packages.Package) []string {
+	var out []string
+	for _, pk := range pkgs {
+		if pk.TypesInfo == nil {
+			continue
+		}
+		for _, f := range pk.Syntax {
+			for _, d := range f.Decls {
+				fd, ok := d.(*ast.FuncDecl)
+				if !ok || fd.Body == nil {
+					continue
+				}
+				obj, ok := pk.TypesInfo.Defs[fd.Name].(*types.Func)
+				if !ok {
+					continue
+				}
+				for v := range closureDefs(pk.TypesInfo, fd) {
+					out = append(out, FuncKey(obj)+"$"+v.Name())
+				}
+			}
+		}
+	}
+	sort.Strings(out)
+	return out
 }
 
 func declNames(fd *ast.FuncDecl) []*ast.Ident {
@@ -375,6 +474,8 @@ type normalizer struct {
 	src     map[string]string // filename -> content
 	overlay map[string][]byte // the variant's files that differ from the disk
 	newFn   map[*types.Func]*ast.FuncDecl
+	synth   map[*types.Var]*types.Func // new local closures (x := func..{}) treated like unknown helpers
+	cdef    map[ast.Stmt]string        // their defining statements -> variable name
 	leaf    map[*types.Func]bool
 	kind    map[*types.Func]string
 	tail    ast.Stmt // the statement after which the current function returns (last statement of its body)
@@ -392,7 +493,7 @@ func Normalize(fset *token.FileSet, pkgs []*packages.Package, known map[string]b
 		if pk.TypesInfo == nil || len(pk.Errors) > 0 {
 			continue
 		}
-		n := &normalizer{fset: fset, pkg: pk, overlay: overlay, src: map[string]string{}, newFn: map[*types.Func]*ast.FuncDecl{}, leaf: map[*types.Func]bool{}, res: res}
+		n := &normalizer{fset: fset, pkg: pk, overlay: overlay, src: map[string]string{}, newFn: map[*types.Func]*ast.FuncDecl{}, synth: map[*types.Var]*types.Func{}, cdef: map[ast.Stmt]string{}, leaf: map[*types.Func]bool{}, res: res}
 		for _, f := range pk.Syntax {
 			for _, d := range f.Decls {
 				fd, ok := d.(*ast.FuncDecl)
@@ -406,6 +507,21 @@ func Normalize(fset *token.FileSet, pkgs []*packages.Package, known map[string]b
 				if !known[FuncKey(obj)] {
 					n.newFn[obj] = fd
 					res.NewFuncs = append(res.NewFuncs, FuncKey(obj))
+				}
+				// local closures that the reference tree does not have (typically a hoisted duplicate block)
+				for v, as := range closureDefs(pk.TypesInfo, fd) {
+					if known[FuncKey(obj)+"$"+v.Name()] {
+						continue
+					}
+					lit := as.Rhs[0].(*ast.FuncLit)
+					sig, ok := pk.TypesInfo.TypeOf(lit).(*types.Signature)
+					if !ok {
+						continue
+					}
+					sf := types.NewFunc(lit.Pos(), pk.Types, v.Name(), sig)
+					n.synth[v] = sf
+					n.cdef[as] = v.Name()
+					n.newFn[sf] = &ast.FuncDecl{Name: ast.NewIdent(v.Name()), Type: lit.Type, Body: lit.Body}
 				}
 			}
 		}
@@ -558,6 +674,11 @@ func (n *normalizer) calleeOf(call *ast.CallExpr) *types.Func {
 	default:
 		return nil
 	}
+	if v, ok := n.pkg.TypesInfo.Uses[id].(*types.Var); ok {
+		if sf := n.synth[v]; sf != nil {
+			return sf
+		}
+	}
 	fn, _ := n.pkg.TypesInfo.Uses[id].(*types.Func)
 	return fn
 }
@@ -594,8 +715,24 @@ func (n *normalizer) rewriteBlock(b *ast.BlockStmt, caller string) []edit {
 
 func (n *normalizer) rewriteList(list []ast.Stmt, caller string) []edit {
 	var eds []edit
-	for _, s := range list {
+	for i, s := range list {
 		eds = append(eds, n.rewriteStmt(s, caller)...)
+		if name, ok := n.cdef[s]; ok {
+			// once its calls are inlined the closure variable is unused: keep the compiler quiet
+			already := false
+			if i+1 < len(list) {
+				if as, ok := list[i+1].(*ast.AssignStmt); ok && len(as.Lhs) == 1 && len(as.Rhs) == 1 {
+					if l, ok := as.Lhs[0].(*ast.Ident); ok && l.Name == "_" {
+						if r, ok := as.Rhs[0].(*ast.Ident); ok && r.Name == name {
+							already = true
+						}
+					}
+				}
+			}
+			if !already {
+				eds = append(eds, edit{n.off(s.End()), n.off(s.End()), "\n_ = " + name})
+			}
+		}
 	}
 	return eds
 }
@@ -689,6 +826,9 @@ func pureOperand(e ast.Expr) bool {
 		return pureOperand(x.X)
 	case *ast.SelectorExpr:
 		return pureOperand(x.X)
+	case *ast.IndexExpr:
+		// an explicit instantiation f[T], or an element read: nothing happens but a read
+		return pureOperand(x.X) && pureOperand(x.Index)
 	}
 	return false
 }
@@ -716,6 +856,16 @@ func (n *normalizer) hoist(whole ast.Node, expr ast.Expr, caller string, extra [
 		txt = "{\n" + txt + "\n}"
 	}
 	return []edit{{n.off(whole.Pos()), n.off(whole.End()), txt}}, true
+}
+
+// allPure: every left-hand side is a plain name or a selection of names (x.f.g = ..): evaluating it reads only.
+func allPure(es []ast.Expr) bool {
+	for _, e := range es {
+		if !pureOperand(e) {
+			return false
+		}
+	}
+	return true
 }
 
 func allIdents(es []ast.Expr) bool {
@@ -751,7 +901,7 @@ func (n *normalizer) rewriteStmt(s ast.Stmt, caller string) []edit {
 	case *ast.ExprStmt:
 		expr = st.X
 	case *ast.AssignStmt:
-		if len(st.Rhs) == 1 && allIdents(st.Lhs) {
+		if len(st.Rhs) == 1 && (allIdents(st.Lhs) || allPure(st.Lhs)) {
 			expr = st.Rhs[0]
 			wrap = st.Tok != token.DEFINE
 		} else if len(st.Lhs) == 1 && st.Tok != token.DEFINE {
